@@ -8,6 +8,9 @@ open SigpyVerif SigpyVerif.Proto SigpyVerif.C11
 /-
   Requests (tokens after `C11`):
     call a=<rat> sh=<ints> x=<crats> :: <expr>      -> ok <shape> | <crats>      (P(α, x))
+    callgen a=<rat> sh=<ints> x=<crats> :: stack …  -> the same, computed by the GENERATED `Prox.__call__` guard around the
+                                                        GENERATED `Stack._prox` / `util.split` / `util.vec`
+                                                        (`Gen.ProxBody.callWith`, `stackProxWith`; inner calls = the model)
     kkt eps=<rat> x=<crats>                          -> ok feasible=<0|1> theta=<rat|none> kkt=<0|1>
     hard lam=<rat> x=<crats>                         -> ok <crats>
     psd n=<nat> y=<crats> v=<crats> w=<rats>         -> ok <crats>   (row-major n×n; `err contract` unless
@@ -65,6 +68,18 @@ def parseL : Nat → Nat → List String → Option (PList × List String)
       pure (.cons p ps, rest')
 end
 
+def plist : PList → List PExpr
+  | .nil => []
+  | .cons p rest => p :: plist rest
+
+/-- `Stack(ps)(α, x)` through the generated guard and the generated `_prox` body -/
+def stackGen (ps : PList) (α : Rat) (x : Tens) : Except String Tens :=
+  let proxs := (plist ps).map fun p => fun (a : Rat) (u : Arr CQ) =>
+    (call p a ⟨u.shape, u.data.toArray⟩).map fun t => (⟨t.shape, t.data.toList⟩ : Arr CQ)
+  let shapes := (plist ps).map pshape
+  (Gen.ProxBody.callWith (fun (a : Arr CQ) => a.shape) (Gen.ProxBody.stackShape shapes)
+    (Gen.ProxBody.stackProxWith proxs shapes) α ⟨x.shape, x.data.toList⟩).map fun a => ⟨a.shape, a.data.toArray⟩
+
 def splitAt (toks : List String) : List String × List String :=
   (toks.takeWhile (· ≠ "::"), (toks.dropWhile (· ≠ "::")).drop 1)
 
@@ -77,6 +92,15 @@ def handle (toks : List String) : String :=
           parseE (etoks.length + 1) etoks with
     | some a, some sh, some x, some (e, []) =>
       match call e a ⟨sh, x.toArray⟩ with
+      | .ok out => s!"ok {fmtIntList out.shape} | {fmtCRatList out.data.toList}"
+      | .error k => s!"err {k}"
+    | _, _, _, _ => "err bad-op"
+  | some "callgen" =>
+    let (args, etoks) := splitAt toks
+    match (kv args "a").bind parseRat?, (kv args "sh").bind parseIntList?, (kv args "x").bind parseCRatList?,
+          parseE (etoks.length + 1) etoks with
+    | some a, some sh, some x, some (.stack ps, []) =>
+      match stackGen ps a ⟨sh, x.toArray⟩ with
       | .ok out => s!"ok {fmtIntList out.shape} | {fmtCRatList out.data.toList}"
       | .error k => s!"err {k}"
     | _, _, _, _ => "err bad-op"
